@@ -16,8 +16,12 @@ def groups(tier):
     from . import colcases
     f = colcases.f32
     a = [('Beta', 'Int32', {'v': 5}), ('Alpha', 'Bool', {'v': True}), ('Gamma', 'Float32', {'v': f(1.5)})]
+    # boundary values of the integer / float transformations: a value that does not survive load -> save breaks the fixed point
+    big = [('Big', 'Int64', {'v': 1 << 31}), ('Neg', 'Int64', {'v': (-(1 << 31) - 1) & ((1 << 64) - 1)}), ('Min', 'Int32', {'v': 1 << 31}), ('NaN', 'Float32', {'v': 0x7fc00001}),
+           ('Caps', 'SecurityCapabilities', {'v': (1 << 63) | 5}), ('Wide', 'Float64', {'v': 0xfff0000000000001})]
     cases = [
         dict(what='det', shape=[-1, 0, 0, 1], classes=['DataModel', 'B', 'A', 'B'], props={1: a[:2], 3: a[:1]}, order_mode='perm', permute_props=True),
+        dict(what='det', shape=[-1, 0, 0], classes=['DataModel', 'A', 'A'], props={1: big[:3], 2: big[3:]}, order_mode='insertion'),
         dict(what='det', shape=[-1, 0, 0], classes=['DataModel', 'K', 'K'], db=colcases.DB, order_mode='perm', permute_props=True,
              props={1: [('size', 'Vector3', {'x': f(1.0), 'y': f(2.0), 'z': f(3.0)}), ('Val', 'Int32', {'v': 9})], 2: [('IgnoreGuiInset', 'Bool', {'v': True})]}),
     ]
